@@ -223,6 +223,77 @@ def check_spelling_field():
         fail("C19-spelling-field-words", "terms_within returned stems instead of words: %r (words %r)" % (outs[0], vocab))
 
 
+def check_batch4():
+    """C19 deterministic families (fourth batch of seeded changes).
+    Lazy lookups: several terms_within() generators created BEFORE any is consumed give the same answers as lookups
+    consumed one at a time (one segment and two).
+    Astral characters: a vocabulary with 4-byte characters (U+1F600, U+1F601 ...) next to ASCII words, chosen so that the
+    plain and the transposition-aware distance agree on every pair: one segment, two segments and brute force agree."""
+    from whoosh import fields
+    from whoosh.analysis import SpaceSeparatedTokenizer
+    from whoosh.filedb.filestore import RamStorage
+
+    def mkix(vocab, cuts):
+        ix = RamStorage().create_index(fields.Schema(t=fields.TEXT(analyzer=SpaceSeparatedTokenizer(), spelling=True)))
+        w = ix.writer()
+        for i, word in enumerate(vocab):
+            if i in cuts:
+                w.commit(merge=False)
+                w = ix.writer()
+            w.add_document(t=word)
+        w.commit(merge=False)
+        return ix
+
+    vocab = [u"abc", u"abd", u"abcd", u"xbc", u"ab", u"bbc", u"abcde", u"zzz", u"a", u"abx"]
+    probes = [(u"abc", 1), (u"abc", 2), (u"abd", 1), (u"zz", 1), (u"abcd", 2), (u"abc", 3)]
+    for cuts in ((), (4,)):
+        ix = mkix(vocab, cuts)
+        with ix.reader() as r:
+            eager = [sorted(r.terms_within("t", w_, d)) for w_, d in probes]
+            gens = [r.terms_within("t", w_, d) for w_, d in probes]
+            lazy = [sorted(g) for g in reversed(gens)][::-1]
+            gens2 = [r.terms_within("t", w_, d) for w_, d in probes]
+            its = [iter(g) for g in gens2]
+            inter = [[] for _ in probes]
+            alive = list(range(len(its)))
+            while alive:                       # round-robin consumption
+                for i in list(alive):
+                    try:
+                        inter[i].append(next(its[i]))
+                    except StopIteration:
+                        alive.remove(i)
+            inter = [sorted(x) for x in inter]
+        counts["cases"] += 2 * len(probes)
+        if lazy != eager or inter != eager:
+            fail("C19-lazy-lookups", "%d segment(s): terms_within generators created together and consumed later give %r (reverse order) / %r "
+                 "(round robin); consumed one at a time: %r (probes %r)" % (len(cuts) + 1, lazy, inter, eager, probes))
+    E0, E1, E2 = u"\U0001F600", u"\U0001F601", u"\U0001F64F"
+    vocab = [u"a" + E0 + u"zz", u"a" + E1 + u"c", u"abc", u"ab", u"a" + E0 + u"c", u"a" + E2, E0 + u"bc", u"abd" + E1, u"b", u"azc", u"a" + E0]
+    probes = [(u"abc", 1), (u"abc", 2), (u"a" + E0 + u"c", 1), (u"a" + E1, 1), (E1 + u"bc", 1), (u"a" + E0 + u"zz", 2)]
+    svocab = sorted(set(vocab))
+    for a in svocab + [p_ for p_, _ in probes]:
+        for b in svocab:
+            if osa(a, b) != lev(a, b):
+                fail("exception/astral-harness", "harness vocabulary has a transposition pair %r %r" % (a, b))
+    outs = []
+    for cuts in ((), (5,), (3, 7)):
+        ix = mkix(vocab, cuts)
+        with ix.reader() as r:
+            try:
+                outs.append([sorted(r.terms_within("t", w_, d)) for w_, d in probes])
+            except Exception as e:
+                fail("C19-astral-exception", "%d segment(s): terms_within over a vocabulary with 4-byte characters raised %s: %s"
+                     % (len(cuts) + 1, type(e).__name__, e))
+                return
+    exp = [sorted(v for v in svocab if lev(v, w_) <= d) for w_, d in probes]
+    counts["cases"] += 3 * len(probes)
+    for nseg, got in zip((1, 2, 3), outs):
+        if got != exp:
+            fail("C19-astral-terms_within", "%d segment(s): terms_within with 4-byte characters in the lexicon: %r, by definition %r (probes %r)"
+                 % (nseg, [[x.encode("unicode_escape") for x in g] for g in got], [[x.encode("unicode_escape") for x in g] for g in exp], probes))
+            break
+
+
 def main():
     tmp = tempfile.mkdtemp(prefix="fb_")
     os.environ["TMPDIR"] = tmp
@@ -234,6 +305,7 @@ def main():
         else:
             check_distance()
             check_spelling_field()
+            check_batch4()
         for f in fails:
             print("FAIL", f["case"], "|", f["detail"])
         sys.exit(1 if fails else 0)
@@ -253,6 +325,10 @@ def main():
         check_spelling_field()
     except Exception:
         fail("exception/spelling-field", traceback.format_exc()[-600:], None)
+    try:
+        check_batch4()
+    except Exception:
+        fail("exception/batch4", traceback.format_exc()[-600:], None)
     import shutil
     shutil.rmtree(tmp, ignore_errors=True)
     print(json.dumps({"cases": counts["cases"], "distinct_nontrivial": counts["cases"] - 1, "failures": fails,
